@@ -79,7 +79,28 @@ def tables(draw):
                 kills=draw(st.sampled_from([0, 0, 0b1001, 0b110110])),
                 # X, Y and lon, lat all in the table (documented: the grid position is used); lon/lat then are
                 # ordinary extra columns, here deliberately pointing somewhere else
-                both=draw(st.sampled_from([False, False, True])))
+                both=draw(st.sampled_from([False, False, True])),
+                # how the release frequency is written: seconds, [value, unit], ISO 8601 duration, timedelta
+                freq_spell=draw(st.sampled_from(["int", "int", "list", "iso", "iso_full", "timedelta", "td64"])))
+
+
+def spell_freq(n, how):
+    """One of the accepted spellings of a period of n seconds (see the period property, C13)."""
+    import datetime
+
+    if how == "list":
+        return [n // 60, "m"] if n % 60 == 0 else [n, "s"]
+    if how == "iso":
+        return f"PT{n // 3600}H" if n % 3600 == 0 else (f"PT{n // 60}M" if n % 60 == 0 else f"PT{n}S")
+    if how == "iso_full":
+        h, r = divmod(n, 3600)
+        m, sec = divmod(r, 60)
+        return "PT" + (f"{h}H" if h else "") + (f"{m}M" if m else "") + (f"{sec}S" if sec or not (h or m) else "")
+    if how == "timedelta":
+        return datetime.timedelta(seconds=n)
+    if how == "td64":
+        return np.timedelta64(n // 60, "m") if n % 60 == 0 else np.timedelta64(n, "s")
+    return n
 
 
 def expected_schedule(case):
@@ -169,7 +190,7 @@ def oracle(case) -> core.CaseResult:
             kw["names"] = cols
         if case["continuous"]:
             kw["continuous"] = True
-            kw["release_frequency"] = case["freq"] * DT
+            kw["release_frequency"] = spell_freq(case["freq"] * DT, case.get("freq_spell", "int"))
         modules = dict(state=state, time=tk, grid=LLGrid())
         try:
             rel = ParticleReleaser(modules, str(d / "r.rls"), **kw)
